@@ -9,7 +9,12 @@ open Sticky
 namespace DriverC11
 
 structure St where
+  /-- the (wrapped) round-robin balancer -/
   lb : LB
+  /-- `lb=rb`: the scenario's front end is a `Rebalancer` around `lb` -/
+  isRb : Bool
+  /-- the rebalancer's own records -/
+  recs : List (URL × Nat)
   ss : Session
   now : Nat
   /-- `Set-Cookie` values received so far, most recent first -/
@@ -95,27 +100,6 @@ def urlOf (tok : String) : Option URL :=
 
 def step (st : St) (f : List String) : St × String :=
   match f with
-  | "upsert" :: u :: rest =>
-    let w : Option (Option Nat) := match rest with
-      | [] => some none
-      | [w] => w.toNat?.map some
-      | _ => none
-    match w with
-    | none => (st, "bad-op")
-    | some w =>
-      match urlOf u with
-      | none => (st, "err badurl")
-      | some u =>
-        let lb := st.lb.upsert u w
-        let wt := match lb.srvs.find? (fun s => s.url.key == u.key) with | some s => s.w | none => 0
-        ({ st with lb := lb }, "ok " ++ l2s (esc (render u)) ++ "," ++ toString wt ++ "," ++ keyStr u)
-  | ["remove", u] =>
-    match urlOf u with
-    | none => (st, "err badurl")
-    | some u =>
-      match st.lb.remove u with
-      | some lb => ({ st with lb := lb }, "ok " ++ keyStr u)
-      | none => (st, "err notfound")
   | ["servers"] =>
     (st, st.lb.srvs.foldl (fun acc s => acc ++ " " ++ l2s (esc (render s.url)) ++ "," ++ toString s.w ++ ","
       ++ l2s (esc s.url.scheme) ++ "|" ++ l2s (esc s.url.host) ++ "|" ++ l2s (esc s.url.path)) "servers")
@@ -168,6 +152,41 @@ def step (st : St) (f : List String) : St × String :=
             | .served _ (some w) => w :: st.jar
             | _ => st.jar
           ({ st with lb := r.1, jar := jar }, resStr r.2)
+  | op :: u :: rest =>
+    -- `upsert` / `remove` go through the front end (the rebalancer when `lb=rb`), `upsert-inner` / `remove-inner`
+    -- to the wrapped round-robin balancer directly
+    if op != "upsert" && op != "remove" && op != "upsert-inner" && op != "remove-inner" then (st, "bad-op") else
+    let viaRb := st.isRb && (op == "upsert" || op == "remove")
+    if op == "upsert" || op == "upsert-inner" then
+      let w : Option (Option Nat) := match rest with
+        | [] => some none
+        | [w] => w.toNat?.map some
+        | _ => none
+      match w with
+      | none => (st, "bad-op")
+      | some w =>
+        match urlOf u with
+        | none => (st, "err badurl")
+        | some u =>
+          let st' : St := if viaRb then
+              let rb := RB.upsert ⟨st.lb, st.recs⟩ u w
+              { st with lb := rb.lb, recs := rb.recs }
+            else { st with lb := st.lb.upsert u w }
+          let wt := match st'.lb.srvs.find? (fun s => s.url.key == u.key) with | some s => s.w | none => 0
+          (st', "ok " ++ l2s (esc (render u)) ++ "," ++ toString wt ++ "," ++ keyStr u)
+    else
+      if rest != [] then (st, "bad-op") else
+      match urlOf u with
+      | none => (st, "err badurl")
+      | some u =>
+        if viaRb then
+          match RB.remove ⟨st.lb, st.recs⟩ u with
+          | some rb => ({ st with lb := rb.lb, recs := rb.recs }, "ok " ++ keyStr u)
+          | none => (st, "err notfound")
+        else
+          match st.lb.remove u with
+          | some lb => ({ st with lb := lb }, "ok " ++ keyStr u)
+          | none => (st, "err notfound")
   | _ => (st, "bad-op")
 
 def init (f : List String) : St × String :=
@@ -176,8 +195,12 @@ def init (f : List String) : St × String :=
     | some n => unesc (s2l n)
     | none => some (s2l "aff")
   match codec, name with
-  | some c, some n => (⟨LB.empty, ⟨n, c⟩, 0, []⟩, "ok")
-  | _, _ => (⟨LB.empty, ⟨s2l "aff", .raw⟩, 0, []⟩, "bad-op")
+  | some c, some n =>
+    match Driver.kv f "lb" with
+    | some "rr" => (⟨LB.empty, false, [], ⟨n, c⟩, 0, []⟩, "ok")
+    | some "rb" => (⟨LB.empty, true, [], ⟨n, c⟩, 0, []⟩, "ok")
+    | _ => (⟨LB.empty, false, [], ⟨s2l "aff", .raw⟩, 0, []⟩, "bad-op")
+  | _, _ => (⟨LB.empty, false, [], ⟨s2l "aff", .raw⟩, 0, []⟩, "bad-op")
 
 def machine : Driver.Machine St where
   init := init
